@@ -37,6 +37,7 @@ EXHAUSTIVE = {"quick": True, "thorough": True}
 EXHAUSTIVE_NOTE = "every mutating event of every generated victim run is a crash point; the scenarios themselves are a fixed matrix (quick) plus seeded variations (thorough)"
 SHARDS = {"quick": 16, "thorough": 16}
 MIN_REACH = {
+    "recoveries_after_straggling_growers": {"quick": 40, "thorough": 300},
     "crash_points": {"quick": 450, "thorough": 4000},
     "naive_reaps_raised": {"quick": 150, "thorough": 1500},
     "naive_reaps_exact": {"quick": 20, "thorough": 200},
@@ -267,6 +268,26 @@ def _naive(case, root):
     return ("exact", None) if d is None else ("wrong", d)
 
 
+def _stragglers(case, root):
+    """Array-job workers queued before the sow was killed: each grows its batch if the crop can be loaded and the batch
+    file is there; their failures are their own business."""
+    import xyzpy
+    with quiet():
+        try:
+            crop = _load_crop(root)
+            ids = sorted(cropkit.batch_files(root, NAME))
+        except BaseException:      # noqa
+            return 0
+        n = 0
+        for i in ids:
+            try:
+                xyzpy.grow(i, crop=crop, verbosity=0)
+                n += 1
+            except BaseException:      # noqa
+                pass
+    return n
+
+
 def _needs_resow(case, root):
     """'the crop's sown files are incomplete': settings unreadable, batch files missing or unreadable."""
     loc = cropkit.crop_dir(root, NAME)
@@ -474,6 +495,17 @@ def run_case(ctx, case):
             bad.append(("recovery", "killed before %s; documented recovery %s: %s" % (evname, r2[0], r2[1])))
         else:
             ctx.count("recoveries_exact")
+        # (2b) workers that were already queued when the sow was killed grow whatever complete batch files they find,
+        # THEN the documented recovery runs: it must still reach the uninterrupted results
+        if case["victim"] in ("sow", "resow") and not bad:
+            crash.restore(root, state)
+            st5, r5 = crash.run_forked(lambda: (_stragglers(case, root), _recover(case, root))[1])
+            ctx.count("recoveries_after_straggling_growers")
+            if st5 != "ok":
+                bad.append(("recovery-after-stragglers", "recovery process %s %r" % (st5, r5)))
+            elif r5[0] != "exact":
+                bad.append(("recovery-after-stragglers", "killed before %s, queued workers then grew the batches already sown; documented recovery %s: %s" % (
+                    evname, r5[0], r5[1])))
         # second kill during the recovery (sampled)
         if case.get("depth2") and not bad and k % max(1, K // case["depth2"]) == 0:
             crash.restore(root, state)
